@@ -122,7 +122,9 @@ func (b Builder) Alloc(elem Type, heap bool) (ret Expr) {
 	} else {
 		// Stack-local zero-sized variables keep a distinct alloca. Only heap
 		// allocations and package globals use the shared module sentinel.
-		ret = Expr{llvm.CreateAlloca(b.impl, elem.ll), prog.VoidPtr()}
+		// The slot lives in the entry block (a loop body must not grow the
+		// stack on every iteration); it is cleared here, where it is declared.
+		ret = Expr{b.AllocaTAtEntry(elem).impl, prog.VoidPtr()}
 		ret.impl = b.zeroinit(ret, size).impl
 	}
 	ret.Type = prog.Pointer(elem)
@@ -161,6 +163,19 @@ func (b Builder) AllocaT(t Type) (ret Expr) {
 	ret.impl = llvm.CreateAlloca(b.impl, t.ll)
 	ret.Type = prog.Pointer(t)
 	return
+}
+
+// AllocaTAtEntry is AllocaT in the function's entry block: a block that runs
+// many times does not grow the stack with it.
+func (b Builder) AllocaTAtEntry(t Type) (ret Expr) {
+	if b.blk.Index() != 0 {
+		blk := b.impl.GetInsertBlock()
+		b.SetBlockEx(b.Func.blks[0], AtStart, false)
+		ret = b.AllocaT(t)
+		b.impl.SetInsertPointAtEnd(blk)
+		return
+	}
+	return b.AllocaT(t)
 }
 
 /* TODO(xsw):
